@@ -194,6 +194,23 @@ func checkC03Views(r *run, c *WireCase) (CaseInfo, error) {
 	views := map[string]rtp.HeaderExtension{
 		"onebyte": &rtp.OneByteHeaderExtension{}, "twobyte": &rtp.TwoByteHeaderExtension{}, "legacy": &rtp.RawExtension{},
 	}
+	// half of the cases: the view value has decoded another block and answered GetIDs/Get before (a view kept
+	// across packets); what it reports for this block must not depend on that
+	if m.Seq&1 == 1 {
+		ci.class("view-used-before")
+		earlier := map[string][]byte{
+			"onebyte": {0xBE, 0xDE, 0x00, 0x01, 0x70, 0xAA, 0x90, 0xBB},
+			"twobyte": {0x10, 0x00, 0x00, 0x02, 7, 1, 0xAA, 9, 1, 0xBB, 0, 0},
+			"legacy":  {byte(w.Profile >> 8), byte(w.Profile), 0x00, 0x01, 1, 2, 3, 4},
+		}
+		for kind, v := range views {
+			if _, err := v.Unmarshal(clone(earlier[kind])); err == nil {
+				for _, id := range v.GetIDs() {
+					_ = v.Get(id)
+				}
+			}
+		}
+	}
 	for kind, v := range views {
 		in := clone(block)
 		n, err := v.Unmarshal(in)
@@ -269,7 +286,7 @@ func genStableCase(t *rapid.T) *StableCase {
 	return &StableCase{In: genHostile(t, "in")}
 }
 
-const ruleC03 = "decode: wire images laid out by the independent reference builder from the RFC 3550/8285 grammar (any CC, one-byte/two-byte/legacy block, 0-5 (occasionally 6-1000) zero bytes before elements, trailing zeros and zero words, arbitrary RTP pad bytes, optional id-15 element with arbitrary tail) must decode to the model; canonical layouts must re-encode byte-identically. stable: every accepted input (valid images and 1-3 byte mutations, random strings) must re-encode to an equal packet and a byte-stable image, or report invalid padding for P with zero count. views: One/TwoByteHeaderExtension and RawExtension on the exact block. Non-trivial = padding between elements / flush element / zero-length element / id-15 / CC>0 with extension and padding (decode), accepted input (stable), block with >=1 element (views); distinct = FNV-64 of the JSON case"
+const ruleC03 = "decode: wire images laid out by the independent reference builder from the RFC 3550/8285 grammar (any CC, one-byte/two-byte/legacy block, 0-5 (occasionally 6-1000) zero bytes before elements, trailing zeros and zero words, arbitrary RTP pad bytes, optional id-15 element with arbitrary tail, one image in six repeating an element id) must decode to the model; canonical layouts must re-encode byte-identically. stable: every accepted input (valid images and 1-3 byte mutations, random strings) must re-encode to an equal packet and a byte-stable image, or report invalid padding for P with zero count. views: One/TwoByteHeaderExtension and RawExtension on the exact block (fresh view values, or ones that decoded another block and answered GetIDs/Get before). Non-trivial = padding between elements / flush element / zero-length element / id-15 / CC>0 with extension and padding (decode), accepted input (stable), block with >=1 element (views); distinct = FNV-64 of the JSON case"
 
 func TestC03(t *testing.T) {
 	r := begin(t, "C03", "exploration", ruleC03)
